@@ -260,7 +260,25 @@ def law_meter(ctx, qi, bi_):
     with Env(main, th, phys):
         dt = _data('meter', names, q=q)
         b_change = c.beats
-        c.beats_per_bar = v
+        # a dependant of the clock reads it from the 'meter' notification: that is an instant like any other
+        from sc3.base import model as mdl
+        seen = []
+
+        class Dep:
+            pass
+        dep = Dep()
+
+        def on_meter(*a):
+            seen.append(1)
+            inv(ctx, c, "inside the 'meter' notification", _data('meter-notify', names, q=q))
+        mdl.NotificationCenter.register(c, 'meter', dep, on_meter)
+        try:
+            c.beats_per_bar = v
+        finally:
+            mdl.NotificationCenter.unregister(c, 'meter', dep)
+        if len(seen) != 1:
+            raise Violation(f"a meter change notified its dependants {len(seen)} times", None,
+                            _data('meter-notify', names, q=q))
         inv(ctx, c, 'beats_per_bar setter', dt)
         _eq(ctx, c.beats_per_bar, v, 'beats_per_bar not set', dt)
         _eq(ctx, c.base_bar_beat, b_change, 'base_bar_beat is not the beat of the meter change', dt)
@@ -438,10 +456,24 @@ def replay(rec):
             if not (-1e-9 <= bib < c.beats_per_bar + 1e-9):
                 return f'beat_in_bar = {bib}'
             return None
-        if law in ('meter', 'meter-foreign'):
+        if law in ('meter', 'meter-foreign', 'meter-notify'):
             q = rec.get('q', 1)
             bc = c.beats
-            c.beats_per_bar = g('new_bpb', 3.0)
+            from sc3.base import model as mdl
+            seen = []
+
+            class Dep:
+                pass
+            dep = Dep()
+            mdl.NotificationCenter.register(c, 'meter', dep,
+                                            lambda *a: seen.append(tol(c._bars_per_beat * c._beats_per_bar, 1)))
+            try:
+                c.beats_per_bar = g('new_bpb', 3.0)
+            finally:
+                mdl.NotificationCenter.unregister(c, 'meter', dep)
+            if seen != [True]:
+                return f"inside the 'meter' notification bars_per_beat * beats_per_bar == 1 held: {seen} " \
+                       '(expected exactly one notification with a consistent clock)'
             if not tol(c.base_bar_beat, bc):
                 return f'meter changed at beat {bc} but grid origin (base_bar_beat) is {c.base_bar_beat}'
             if abs(c.base_bar - round(c.base_bar)) > 1e-6 or not tol(c.beats2bars(bc), c.base_bar):
